@@ -24,7 +24,10 @@ def run(tier):
     for u in UNITS:
         ck.add(runner.run_slices(bins[u], ["tier=" + tier], nslices=runner.NCPU * 2, env=ENV, timeout=7000, jobs=runner.NCPU))
     ck.rule = ("bounded-exhaustive inputs under ASan+UBSan, allocation-balance leak check, per-case watchdog, exception-type check: "
-               "(bin) every byte string of length <= 2 and 3-byte strings with 19 representative middle bytes (thorough: all 3-byte strings) "
+               "(bin) every byte string of length <= 2 and 3-byte strings with 19 representative middle bytes (thorough: all 3-byte strings), plus "
+               "structured inputs: every head carrying a 1/2/4/8-byte length or count x 22 boundary values x 3 tails x bare/in array/as key/"
+               "as chunk/under tags (CBOR, MessagePack, UBJSON), every BSON element type x 16 int32 length values x 4 payload sizes x document "
+               "size exact/off by one/degenerate "
                "x CBOR/MessagePack/UBJSON/BSON x 9 entry points (try_decode from bytes/istream/iterators, throwing decode + dump, cursors "
                "over bytes and a 2-byte stream buffer, reader + json_decoder, typed decode to vector<double> and map<string,string>); "
                "(text) every string of length <= 4 (5) over a 30-symbol JSON alphabet incl. invalid UTF-8 x 3 option sets/readers/"
